@@ -113,7 +113,9 @@ from .iter_elim import (
     destructure_subst,
     index_access,
     is_access_path,
+    names_read,
     plan_for_zip,
+    stage_rebinds,
 )
 
 
@@ -243,6 +245,10 @@ class _EnumerateElimInstance(DefaultTransformVisitor):
         subst: dict[NamedId, Expr] = {}
 
         for target, iterable in zip(e.targets, e.iterables):
+            if subst and stage_rebinds(subst, target):
+                # this stage re-binds a name an earlier one had eliminated, or
+                # one its inlined reads use: leave the comprehension alone
+                return super()._visit_list_comp(e, ctx)
             new_iter = self._visit_expr(iterable, ctx)
             # A later stage's iterable may reference an earlier stage's target
             # (`[... for i, x in enumerate(xs) for y in x]`), whose name no
@@ -292,6 +298,9 @@ class _EnumerateElimInstance(DefaultTransformVisitor):
             return None
 
         idx = self._index_name(idx_slot)
+        if idx in names_read(list(plan.args)):
+            # the index is named like a source: `[x for i, x in enumerate(i)]`
+            return None
         if plan.tupled:
             # A whole-element slot is a name or a discard, so no `fst`/`snd`
             # chain is involved and `comp_binding_is_pairs` has nothing to say.
